@@ -202,10 +202,12 @@ package hessian
 
 //@ func getBinaryLen
 //@   assigns @pos, @E, @declared
-//@   let short  = 0x20 <= tag && tag <= 0x2f
-//@   let fits   = short || old(@pos) + 2 <= len(@in)
+//@   let short  = G.isBinShort(tag)
+//@   let mid    = G.isBinMid(tag)
+//@   let fits   = short || (mid && old(@pos) + 1 <= len(@in)) || (!mid && old(@pos) + 2 <= len(@in))
 //@   ensures [C09,C03:binlen-short]  short ==> err == nil && result0 == int(tag) - 0x20 && @pos == old(@pos)
-//@   ensures [C09,C03:binlen-chunk]  !short && fits ==> err == nil && result0 == int(@in[old(@pos)]) * 256 + int(@in[old(@pos) + 1]) && @pos == old(@pos) + 2
+//@   ensures [C09,C03:binlen-mid]    mid && fits ==> err == nil && result0 == (int(tag) - 0x34) * 256 + int(@in[old(@pos)]) && @pos == old(@pos) + 1
+//@   ensures [C09,C03:binlen-chunk]  !short && !mid && fits ==> err == nil && result0 == int(@in[old(@pos)]) * 256 + int(@in[old(@pos) + 1]) && @pos == old(@pos) + 2
 //@   sets @declared = result0
 //@   ensures [C09,C14:binlen-range]  err == nil ==> 0 <= result0 && result0 <= 65535
 //@   ensures [C14,C03:binlen-reject] !fits ==> err != nil
@@ -216,7 +218,7 @@ package hessian
 
 //@ func binaryTag
 //@   pure
-//@   ensures [C03,C01:binaryTag] result == ((0x20 <= tag && tag <= 0x2f) || tag == 0x41 || tag == 'B')
+//@   ensures [C03,C01:binaryTag] result == G.isBin(tag)
 
 //@ func readRunes
 //@   assigns @pos, buf
@@ -236,4 +238,4 @@ package hessian
 //@   requires flag == -1 || (0 <= flag && flag <= 255)
 //@   assigns @pos, @E, @declared
 //@   loop 1 invariant [C03,C09:bin-chunk-own-length] len(buf) == @declared
-//@   proves [C03,C06:bin-ends-at-final-chunk] err == nil && @pos < len(@in) ==> tag == 'B' || (0x20 <= tag && tag <= 0x2f)
+//@   proves [C03,C06:bin-ends-at-final-chunk] err == nil && @pos < len(@in) ==> G.isBinFinal(tag)
